@@ -36,7 +36,7 @@ def run(ctx):
                 "exactly its original bytes. distinct = canonical real states.")
     ctx.assumptions += ["layout c/<sha256>.link -> c/.versions/<uuid>/<sha256> as documented in _FilesystemDataSource"]
     c0 = ("c07", "fs", KEYS, ("s", "D"), False, 3, 0)
-    h = (("memo", 0, "D", None), ("memo", 2, "D", None), ("memo", 0, "s", "k1"), ("fc", 2))
+    h = (("memo", 0, "D", None), ("memo", 2, "D", None), ("memo", 0, "s", storemc.OVK), ("fc", 2))
     ctx.selfcheck("same history twice gives the same canonical state",
                   storemc.build(c0, h).canon() == storemc.build(c0, h).canon())
     storemc.run_configs(ctx, configs(ctx.tier, ctx.seed))
